@@ -713,7 +713,7 @@ func init() {
 		Assume: []string{"for -w=false the result is what the tool prints minus the newline fmt.Println adds", "go/parser, go/format, go/types (source importer) as independent judges", "twin structs use int for every field type: only tag errors are in question"},
 		Plan: func(tier string) []core.Lane {
 			if tier == "thorough" {
-				return []core.Lane{{Lane: "plain", Cases: 10000, Shards: 16, TimeoutS: 7200, Plenctag: true}}
+				return []core.Lane{{Lane: "plain", Cases: 20000, Shards: 16, TimeoutS: 7200, Plenctag: true}}
 			}
 			return []core.Lane{{Lane: "plain", Cases: 320, Shards: 16, TimeoutS: 1800, Plenctag: true}}
 		},
